@@ -62,6 +62,7 @@ def main(argv=None):
         still = {}
         for k in known:
             try:
+                env.reset_caches()
                 out = mod.EVALUATORS[k["example"]["check"]](k["example"]["case"])
                 sigs = [d.signature for d in out.discrepancies]
                 still[k["signature"]] = k["signature"] in sigs
@@ -73,6 +74,7 @@ def main(argv=None):
 
         if a.replay:
             rec = json.load(open(a.replay))
+            env.reset_caches()
             out = mod.EVALUATORS[rec["check"]](rec["case"])
             result["replay"] = [{"signature": d.signature, "detail": d.detail} for d in out.discrepancies]
             result["ok"] = True
